@@ -950,7 +950,11 @@ func supervise() {
 			how = "hung"
 		}
 		if err == nil {
-			os.Stdout.Write(so.Bytes())
+			for _, l := range strings.Split(so.String(), "\n") {
+				if l != "" && !strings.HasPrefix(l, "BEGIN ") {
+					fmt.Println(l)
+				}
+			}
 			return
 		}
 		// find the case that was running
